@@ -25,11 +25,11 @@ CHECKS = {
          "Trusts fontTools' cmap/maxp readers; ASCII glyph names; '.notdef' carries no code point.",
          "DESIGN.md section 5 C03"),
  "C18": ("runtime monitoring: reference oracle over reloaded GDEF classes / ligature carets / GPOS cursive records and lookup flags of generated multi-script UFOs",
-         "Exploration: 3000 generated UFOs (category maps incl. invalid values, non-exported glyphs and maps that use a single class, boundary / origin caret and cursive anchor values, caret/vcaret anchors, one-sided and suffixed entry/exit anchors in mixed-direction repertoires with GSUB-reachable alternates and cursive glyphs encoded beyond the BMP only, with/without user GDEF blocks) compiled by the real compileTTF; GDEF and CursivePos data read back and compared with the UFO data; script direction by an independent provenance closure.",
+         "Exploration: 3000 generated UFOs (category maps incl. invalid values, non-exported glyphs and maps that use a single class, boundary / origin caret and cursive anchor values, caret/vcaret anchors, one-sided and suffixed entry/exit anchors in mixed-direction repertoires (Khmer and Myanmar included; 20 % with letters that also carry a script-neutral code point) with GSUB-reachable alternates and cursive glyphs encoded beyond the BMP only, with/without user GDEF blocks) compiled by the real compileTTF; GDEF and CursivePos data read back and compared with the UFO data; script direction by an independent provenance closure.",
          "Trusts fontTools' GDEF/GPOS readers and unicodedata; script-neutral glyphs must keep the right-to-left flag, glyphs of mixed provenance are not judged (counted).",
          "DESIGN.md section 5 C18"),
  "C20": ("runtime monitoring: reachability oracle over the reloaded GPOS ScriptList -> LangSys -> feature -> lookup -> coverage graph of generated multi-script UFOs",
-         "Exploration: 2400 generated UFOs with kerning and mark/cursive anchors, with and without languagesystem statements, 10 % as the default master of a two-master variable font whose other master has no feature text (also in the user's own order: a named language declared before its script's dflt; script chains that need repeated merging), comment-only '# Automatic Code' placeholder blocks directly below the languagesystem list on 15 %, stray digits of scripts without letters in the font, incl. encoded source glyphs of a foreign script that are not exported (public.skipExportGlyphs) next to kerned glyphs whose Script_Extensions name that script; for every language system reaching generated kern/dist, every generated mark/mkmk/curs/abvm/blwm lookup covering a glyph of that script must be reachable too, and every language system that exposes any generated positioning feature must reach the generated kern/dist lookups acting on its script's glyphs. The known defect (a script the exported font really supports is registered only by the kern writer) is listed as a finding; any other unreachable feature is a violation.",
+         "Exploration: 2400 generated UFOs with kerning and mark/cursive anchors, with and without languagesystem statements, 10 % as the default master of a two-master variable font whose other master has no feature text (also in the user's own order: a named language declared before its script's dflt; script chains that need repeated merging), comment-only '# Automatic Code' placeholder blocks directly below the languagesystem list on 15 %, stray digits of scripts without letters in the font, incl. encoded source glyphs of a foreign script that are not exported (public.skipExportGlyphs) next to kerned glyphs whose Script_Extensions name that script; for every language system reaching generated kern/dist, every generated mark/mkmk/curs/abvm/blwm lookup covering a glyph of that script must be reachable too, and every language system that exposes any generated positioning feature must reach the generated kern/dist lookups acting on its script's glyphs. A pair-positioning lookup that no feature refers to is a violation of its own. Two known defects are listed as findings (a script the exported font really supports is registered only by the kern writer; the dist kerning of a file whose only languagesystem is a single-tag script lands under DFLT through a feaLib quirk); any other unreachable feature is a violation.",
          "Trusts fontTools' GPOS reader and unicodedata script data; script membership closed over the generated GSUB rules.",
          "DESIGN.md section 5 C20, section 6"),
  "C04": ("runtime monitoring: recomputation oracle over compiled and reloaded tables (raw hmtx/vmtx decoding, own Bezier extrema), byte comparison of save/reload/save, enumerated advance sequences",
@@ -41,7 +41,7 @@ CHECKS = {
          "Trusts fontTools' sfnt reader; Latin-1 feature-file-safe source names; uniqueness numbering scheme not prescribed.",
          "DESIGN.md section 5 C11"),
  "C05": ("runtime monitoring: GPOS interpreter (shaper semantics over the reloaded tables) against an independent UFO kerning lookup, per script tag, for every ordered glyph pair",
-         "Exploration: 700 generated multi-script UFOs (all four kerning precedence levels with deliberate exceptions, zero/fractional/negative values incl. exact half-step ties of both parities at quantisation 1/2/5/10, script sets that need repeated merging, missing glyphs, unknown groups, GDEF marks, languagesystems none/some/all, quantisation, both kern writers, writer objects that first served another font of other scripts, first-side classes mixing one left-to-right and one right-to-left letter; 8 % compiled as the default master of a two-master designspace with substitution rules); every ordered glyph pair is evaluated under every script tag by an interpreter of the compiled GPOS and compared with the UFO lookup (value, applied once, x-placement rule); three listed mechanisms are known findings, each re-exercised by a dedicated stratum.",
+         "Exploration: 700 generated multi-script UFOs (all four kerning precedence levels with deliberate exceptions, zero/fractional/negative values incl. exact half-step ties of both parities at quantisation 1/2/5/10, script sets that need repeated merging, missing glyphs, unknown groups, GDEF marks, languagesystems none/some/all, quantisation, both kern writers, writer objects that first served another font of other scripts, first-side classes mixing one left-to-right and one right-to-left letter; stale user classes named like the writer's own kerning classes on 15 %; 8 % compiled as the default master of a two-master designspace with substitution rules); every ordered glyph pair is evaluated under every script tag by an interpreter of the compiled GPOS and compared with the UFO lookup (value, applied once, x-placement rule); three listed mechanisms are known findings, each re-exercised by a dedicated stratum.",
          "Trusts fontTools' GPOS/GDEF readers and unicodedata; shaper semantics of DESIGN section 3; quantifier of DESIGN 4.4.",
          "DESIGN.md section 5 C05, 4.4, section 6"),
  "C16": ("runtime monitoring: field-by-field reference oracle (independent fallback table) over reloaded name/OS2/hhea/head/post/CFF tables, plus an exhaustive sweep of every Unicode scalar through the PostScript-name normaliser",
@@ -53,7 +53,7 @@ CHECKS = {
          "Trusts feaLib's parser/asFea round trip (checked per case) and fontTools' sfnt reader.",
          "DESIGN.md section 5 C17"),
  "C15": ("runtime monitoring: before/after snapshots of real filter applications compared through the exact-rational resolver (rendering invariance, matrix image, anchor-position closure)",
-         "Exploration: 4000 component-graph fonts (depth<=4, shared bases, arbitrary affine transforms, anchors) x the real Decompose / DecomposeTransformed / Flatten / Transformations / PropagateAnchors filter objects with include/exclude/predicate selections on the font, a glyph-set copy or a foreign dict, and the interpolatable variants of Decompose / DecomposeTransformed / Flatten applied once to 2-3 compatible masters without an instantiator; the glyphs are read back and every glyph's fully resolved contours must equal (exactly for dyadic inputs) the original's, resp. its image under the requested matrix; propagated anchors must lie where some component path puts a base anchor (and, when the composite has a non-mark component, where a base's anchor or an attaching mark's anchor lands); every anchor of a non-mark component's base must appear (plain or numbered) on an included glyph with components - mixed glyphs too - unless it had one of that name; second application adds nothing.",
+         "Exploration: 4000 component-graph fonts (depth<=4, shared bases, arbitrary affine transforms, anchors) x the real Decompose / DecomposeTransformed / Flatten / Transformations / PropagateAnchors filter objects with include/exclude/predicate selections on the font, a glyph-set copy or a foreign dict, and the interpolatable variants of Decompose / DecomposeTransformed / Flatten applied once to 2-3 compatible masters without an instantiator; the glyphs are read back and every glyph's fully resolved contours must equal (exactly for dyadic inputs) the original's, resp. its image under the requested matrix; propagated anchors must lie where some component path puts a base anchor (and, when the composite has a non-mark component, where a base's anchor or an attaching mark's anchor lands); every anchor of a non-mark component's base must appear (plain or numbered) on an included glyph with components - mixed glyphs too - unless it had one of that name; for a mark made of marks the anchors must come from the component whose outline's lower-left corner is closest to the origin (ties not judged); second application adds nothing.",
          "Exact for dyadic/integer inputs, 1e-9 relative otherwise; selection heuristics of anchor propagation deliberately not re-implemented.",
          "DESIGN.md section 5 C15"),
  "C06": ("runtime monitoring: GPOS interpreter (MarkBasePos / MarkLigPos / MarkMarkPos with lookup flags and filtering sets, later lookup wins) against anchor-difference candidates computed from the UFO",
@@ -61,23 +61,23 @@ CHECKS = {
          "Trusts fontTools' GPOS/GDEF readers; shaper semantics of DESIGN section 3; only the mark (and GDEF) writer runs.",
          "DESIGN.md section 5 C06, section 6"),
  "C13": ("runtime monitoring: relation between executions (with / without the skip list) over reloaded outlines, order, cmap, metrics and GPOS results evaluated by the interpreter",
-         "Exploration: 500 component-graph UFOs with kerning groups, mark anchors and categories x random skip subsets (nested chains, mirrored references, group members; category maps that name only non-exported glyphs; a decoy list in a master's own lib on the designspace paths; a glyph that is a composite in one master and drawn in the other) delivered by argument / UFO lib / both / designspace lib / the union of the master UFOs' libs (compileInterpolatableTTFs on a master list), OTF and TTF, static plus interpolatable and variable strata, plus a sparse-master stratum (leaf <- middle <- top chains whose skipped inner glyphs have non-linear sparse layer masters; optionally on two axes with sparse sources that omit the axis they leave at its default; the variable fonts compiled with and without the skip list are read back at nine axis positions); each compiled twice by the real compile functions; skipped names must be absent everywhere, the remaining glyphs' contour multisets (OTF exact, TTF within the stored-form error bound), advances, order, cmap, kerning and mark attachment must be unchanged.",
+         "Exploration: 500 component-graph UFOs with kerning groups, mark anchors and categories x random skip subsets (nested chains, mirrored references, group members; category maps that name only non-exported glyphs; a decoy list in a master's own lib on the designspace paths; static compiles of a named layer; a glyph that is a composite in one master and drawn in the other) delivered by argument / UFO lib / both / designspace lib / the union of the master UFOs' libs (compileInterpolatableTTFs on a master list), OTF and TTF, static plus interpolatable and variable strata, plus a sparse-master stratum (leaf <- middle <- top chains whose skipped inner glyphs have non-linear sparse layer masters; optionally on two axes with sparse sources that omit the axis they leave at its default; the variable fonts compiled with and without the skip list are read back at nine axis positions); each compiled twice by the real compile functions; skipped names must be absent everywhere, the remaining glyphs' contour multisets (OTF exact, TTF within the stored-form error bound), advances, order, cmap, kerning and mark attachment must be unchanged.",
          "Trusts fontTools' readers; TTF cases restricted to line/quadratic sources; feature text without GSUB rules.",
          "DESIGN.md section 5 C13"),
  "C07": ("runtime monitoring: deep before/after state snapshots of every source object, identity-aliasing check at working-copy creation, recording dicts (tripwires) keyed by call site, source-free failpoints (sys.monitoring) for the raising executions",
-         "Fault enumeration + exploration: every fixture under tests/data with both UFO libraries plus ~480 generated UFOs / designspaces through all nine public compile functions with option combinations and call histories (once, twice, TTF then OTF), including compiles of non-default layers (empty, all glyphs non-exported, sparse) and sparse masters whose working glyph set is empty together with filters that run master by master, and families with a composite of an anchor-less composite compiled with PropagateAnchors as a PRE filter; late-failing inputs and InjectedFault raised at sampled ufo2ft function entries exercise the 'or raises' clause; after every call the deep snapshot of all layers, libs, info, kerning, groups, features and of the designspace must equal the one taken before; no working glyph set may share an object with a source layer; no tripwire may record a write; inplace=True runs prove the monitor sees mutations.",
+         "Fault enumeration + exploration: every fixture under tests/data with both UFO libraries plus ~480 generated UFOs / designspaces through all nine public compile functions with option combinations and call histories (once, twice, TTF then OTF), including compiles of non-default layers (empty, all glyphs non-exported, sparse) and sparse masters whose working glyph set is empty together with filters that run master by master, families with a composite of an anchor-less composite compiled with PropagateAnchors as a PRE filter, and components carrying UFO 3 identifiers with and without public.objectLibs entries; late-failing inputs and InjectedFault raised at sampled ufo2ft function entries exercise the 'or raises' clause; after every call the deep snapshot of all layers, libs, info, kerning, groups, features and of the designspace must equal the one taken before; no working glyph set may share an object with a source layer; no tripwire may record a write; inplace=True runs prove the monitor sees mutations.",
          "Snapshot scope as listed in the evidence assumptions; failpoints sampled, not all entries; faults inside C extensions cannot be injected.",
          "DESIGN.md section 5 C07, 2.3"),
  "C14": ("runtime monitoring: contract monitor around real filter calls (pre/post snapshots of the glyph set and of the source font, returned set, reuse histories versus fresh objects)",
-         "Exploration: 1400 applications of the 12 shipped filter classes and 5 interpolatable variants (each class at least once per run) to generated component-graph fonts under include / exclude / predicate selections (including empty include / exclude lists), on the font itself or on a separate glyph-set copy, with one filter object reused across fonts, plus a pipeline stratum (7 %: the real compileInterpolatable*FromDS on a family with a chain of interpolatable and per-master lib filters and a sparse master, monitors around the pre-processor's _run and the filters' __call__: step report = union of the filters' reports, every changed glyph reported, and after every step the instantiator - cached models and held interpolated glyphs included - reproduces each glyph set at its own location); from the snapshots the four clauses are decided: untouched glyphs unchanged, every changed/added/removed glyph reported, source font unchanged when a separate glyph set is given, reused object == fresh object.",
+         "Exploration: 1400 applications of the 12 shipped filter classes and 5 interpolatable variants (each class at least once per run) to generated component-graph fonts under include / exclude / predicate selections (including empty include / exclude lists), on the font itself, on a separate glyph-set copy or on a plain dict of glyph copies (cu2qu with and without rememberCurveType), with one filter object reused across fonts, plus a pipeline stratum (7 %: the real compileInterpolatable*FromDS on a family with a chain of interpolatable and per-master lib filters and a sparse master, monitors around the pre-processor's _run and the filters' __call__: step report = union of the filters' reports, every changed glyph reported, and after every step the instantiator - cached models and held interpolated glyphs included - reproduces each glyph set at its own location); from the snapshots the four clauses are decided: untouched glyphs unchanged, every changed/added/removed glyph reported, source font unchanged when a separate glyph set is given, reused object == fresh object.",
          "Glyph state = outline, components, anchors, metrics, unicodes, lib; over-reporting only counted.",
          "DESIGN.md section 5 C14, 2.3"),
  "C08": ("runtime monitoring: per-table sha256 digests of saved fonts compared across fresh interpreters started with different PYTHONHASHSEED values and across library / memory-vs-disk / inplace / call-history variants",
-         "Exploration: 64 cases (10 repository fixtures + generated layout-heavy UFOs incl. the groupMarkClasses option with a deliberate colouring tie, outline UFOs with lib filters incl. colliding propagated anchor names and a mark-of-marks composite whose curve component's control box exceeds its outline box, user cubicToQuadratic filters that remember the curve type, writer / filter objects shared by all calls of an interpreter, contextual anchors, generated designspaces (half of them with feature text in the default master only), one case whose ftConfig option object asking for GPOS compaction is shared by every call, one with unlisted glyph names that differ in case only; SOURCE_DATE_EPOCH default / 0 / 86400 per case) each compiled in 4 fresh interpreters (PYTHONHASHSEED 0-3; thorough: 8) under {defcon, ufoLib2} x {in memory, saved and re-opened} x {first call, second call on the same objects, after another compile function, inplace=True}; all digests of one (case, function, options) must be equal, a mismatch is localised to the table. ufo2ft has no threads: hash order and call history are the only schedules.",
+         "Exploration: 64 cases (10 repository fixtures + generated layout-heavy UFOs incl. the groupMarkClasses option with a deliberate colouring tie, outline UFOs with lib filters incl. colliding propagated anchor names and a mark-of-marks composite whose curve component's control box exceeds its outline box, user cubicToQuadratic filters that remember the curve type, caret / vcaret / entry / exit anchors under an anchor-moving transformations lib filter, writer / filter objects shared by all calls of an interpreter, contextual anchors, generated designspaces (half of them with feature text in the default master only), one case whose ftConfig option object asking for GPOS compaction is shared by every call, one with unlisted glyph names that differ in case only; SOURCE_DATE_EPOCH default / 0 / 86400 per case) each compiled in 4 fresh interpreters (PYTHONHASHSEED 0-3; thorough: 8) under {defcon, ufoLib2} x {in memory, saved and re-opened} x {first call, second call on the same objects, after another compile function, inplace=True}; all digests of one (case, function, options) must be equal, a mismatch is localised to the table. ufo2ft has no threads: hash order and call history are the only schedules.",
          "SOURCE_DATE_EPOCH pinned; head checksum masked; complete public.glyphOrder except in the per-library stratum.",
          "DESIGN.md section 5 C08"),
  "C19": ("runtime monitoring: closed-form variation reference (exact rationals, independent of varLib/fontMath) against real Instantiator instances; deep before/after snapshots of all sources; repeated generation from one instantiator",
-         "Exploration: 2000 generated compatible master families (1-2 axes, 2-4 masters, intermediate/sparse masters, axis maps, rules, aligned/ragged kerning, default source optionally on a named layer, both UFO libraries) x ~14 instance locations each (master locations, axis extremes, rule boundaries, interior points) x rounding on/off; every coordinate, advance, anchor, info number and kerning value is compared with the master (at master locations) or the closed-form blend; glyph set, unicodes, rule swaps (involution), source snapshots and k-th generation == first are checked.",
+         "Exploration: 2000 generated compatible master families (1-2 axes, 2-4 masters, intermediate/sparse masters, axis maps, rules, aligned/ragged kerning, default source optionally on a named layer, both UFO libraries) x ~14 instance locations each (master locations, axis extremes, rule boundaries, interior points) x rounding on/off; every coordinate, advance, anchor, info number and kerning value is compared with the master (at master locations) or the closed-form blend; 3 %: two axes named against alphabetical order with two off-axis masters whose coordinates cross - no closed form there, instead quantities that are equal in every master (advance, point coordinate, kerning pair, info number, anchor coordinate) must be equal in every instance; glyph set, unicodes, rule swaps (involution), source snapshots and k-th generation == first are checked.",
          "Closed forms cover the layouts listed in the evidence assumptions; exact ties accept both neighbours only where the statement does not fix the rounding mode.",
          "DESIGN.md section 5 C19, section 3 R-var, 4.5"),
  "C09": ("runtime monitoring: structural comparison of the produced master fonts glyph by glyph (contours, end points, on/off flags, component lists with their 2x2 parts, drawn CFF path operations), sparse-master glyph-set bounds, with a per-master control compile that counts would-be divergences",
